@@ -36,6 +36,38 @@ def gen(ctx, rng, per):
                     c["y0"] = [ivpgen.cpair(amp * vlib.pair_to_float(z[0])) for z in c["y0"]]
                     c["acc"] = "local"
                     cases.append(c)
+        # a minimum step that is coarser than the tolerance comes to require (growing or large solutions): the run may then end
+        # with an Err - which this property does not forbid - but whatever was yielded before must be accurate all the same
+        for _ in range(max(2, per)):
+            tol = 10.0 ** (-rng.uniform(4, 8))
+            c = ivpgen.accuracy_case(rng, solver, rng.choice([["grow"], ["lin"], ["rot", "lin"]]), tol, dim=rng.randint(1, 2),
+                                     span=rng.uniform(2.0, 3.0), amp=rng.choice([1.0, 30.0]))
+            c["dtmin"] = vlib.float_to_pair(vlib.pair_to_float(c["dtmax"]) * rng.uniform(0.05, 0.6))
+            c["acc"] = "local"
+            cases.append(c)
+        if solver in ("rk45", "rk23"):
+            # ... for the one-step solvers (every step of theirs is verified, so the size of the state needs no compensation in
+            # the step cap) with a solution that grows to 10^4..10^5: the estimator then asks for less than the minimum step
+            for _ in range(max(3, per)):
+                tol = 10.0 ** (-rng.uniform(4, 8))
+                c = ivpgen.accuracy_case(rng, solver, ["grow"], tol, dim=1, span=rng.uniform(2.5, 3.5))
+                amp = rng.choice([100.0, 1000.0])
+                c["y0"] = [ivpgen.cpair(amp * vlib.pair_to_float(z[0])) for z in c["y0"]]
+                c["dtmin"] = vlib.float_to_pair(vlib.pair_to_float(c["dtmax"]) * rng.uniform(0.3, 0.7))
+                c["acc"] = "local"
+                cases.append(c)
+        if solver in ("adams5", "adams3"):
+            # short intervals (3-9 maximum steps) with a large state, not compensated in the step cap: the start-up block taken
+            # at the untested initial step must be confirmed (or rolled back) by a predictor-corrector step before it is yielded
+            # unless it reaches the end - the unchanged code stays within 0.3 tol x step on these (1200 cases tried)
+            for _ in range(max(10, 2 * per)):
+                tol = 10.0 ** (-rng.uniform(3, 8))
+                c = ivpgen.accuracy_case(rng, solver, rng.choice([["lin"], ["rot", "lin"]]), tol, dim=rng.randint(1, 2))
+                c["t1"] = vlib.float_to_pair(vlib.pair_to_float(c["t0"]) + vlib.pair_to_float(c["dtmax"]) * rng.uniform(3.0, 9.0))
+                amp = rng.choice([300.0, 1000.0])
+                c["y0"] = [ivpgen.cpair(amp * vlib.pair_to_float(z[0])) for z in c["y0"]]
+                c["acc"] = "local"
+                cases.append(c)
         # large states: the tolerance is absolute, so it must be met for |y| >> 1 too (linear families, exact flows)
         for amp in (30.0, 1000.0):
             for fam in (["lin"], ["rot", "lin"]):
